@@ -65,6 +65,9 @@ func main() {
 				continue
 			}
 			c.Reqs = append(c.Reqs, hostMutations(r, c)...)
+			if r.IntN(2) == 0 {
+				c.Churn = r.Uint64() | 1
+			}
 			check(run, c)
 		}
 	})
@@ -136,26 +139,12 @@ func check(run *kit.Run, c route.Case) {
 	if b == nil {
 		return
 	}
-	// churn: register and delete again hostname routes that extend / are extended by the registered hosts, so that the
-	// tree has gone through the merge paths of delete (the registered set is unchanged)
-	if len(c.Routes)%2 == 0 {
-		var tmp [][2]string
-		for _, rs := range c.Routes {
-			if i := strings.IndexByte(rs.Pattern, '/'); i > 0 {
-				h := rs.Pattern[:i]
-				for _, p := range []string{h + ".org/zq", h + "-x/zq", h + ".org" + rs.Pattern[i:], "zq." + h + "/zq"} {
-					if _, err := b.F.Handle(rs.Method, p, b.Handler()); err == nil {
-						tmp = append(tmp, [2]string{rs.Method, p})
-					}
-				}
-			}
-		}
-		for _, t := range tmp {
-			if _, err := b.F.Delete(t[0], t[1]); err != nil {
-				run.Violate("churn|"+c.RoutesString(), fmt.Sprintf("a route registered a moment ago cannot be deleted: %s %s: %v", t[0], t[1], err), c)
-			}
-		}
-		run.Count("cases_with_hostname_churn", 1)
+	if b.Churned > 0 {
+		run.Count("cases_with_delete_churn", 1)
+		run.Count("churn_routes_added_and_deleted", int64(b.Churned))
+	}
+	if b.ChurnErr != "" {
+		run.Violate("churn|"+c.RoutesString(), b.ChurnErr, c)
 	}
 	hasHost := map[string]bool{}
 	for _, rs := range c.Routes {
